@@ -373,7 +373,7 @@ fn inner_layout(s: &mut Src, name: &str, bits: u32, debug: bool) -> Layout {
     if handwritten != 0 {
         fields.clear();
     }
-    Layout { name: name.to_string(), base_bits: bits, default: None, default_colon: false, debug, fields, enums: vec![], inners: vec![], debug_first: false, vis: 0, decoys: 0, derives: 0, handwritten }
+    Layout { name: name.to_string(), base_bits: bits, default: None, default_colon: false, debug, fields, enums: vec![], inners: vec![], debug_first: false, vis: 0, decoys: 0, derives: 0, handwritten, macro_wrap: 0 }
 }
 
 /// split w into `parts` positive integers
@@ -411,7 +411,7 @@ pub fn build_layout(p: &Profile, words: &[u32]) -> Layout {
 }
 
 pub fn build_layout_on(p: &Profile, s: &mut Src, bits: u32) -> Layout {
-    let mut l = Layout { name: "S".into(), base_bits: bits, default: None, default_colon: false, debug: p.debug, fields: vec![], enums: vec![], inners: vec![], debug_first: false, vis: 0, decoys: 0, derives: 0, handwritten: 0 };
+    let mut l = Layout { name: "S".into(), base_bits: bits, default: None, default_colon: false, debug: p.debug, fields: vec![], enums: vec![], inners: vec![], debug_first: false, vis: 0, decoys: 0, derives: 0, handwritten: 0, macro_wrap: 0 };
     let mut occupied = 0u128;
     let n_fields = s.range(1, p.max_fields);
     let mut forced_kind_done = p.force_kind.is_none();
@@ -712,7 +712,7 @@ pub fn build_layout_on(p: &Profile, s: &mut Src, bits: u32) -> Layout {
             }
             0 => {
                 // a name the templates use for their own parameters and locals
-                let nm = s.pick(&["index", "effective_index", "field_value", "value", "mask", "shift", "result", "one"]);
+                let nm = s.pick(&["index", "effective_index", "field_value", "value", "mask", "shift", "result", "one", "build", "temp", "this", "other"]);
                 if !taken(&l, nm) {
                     l.fields[i].name = nm.to_string();
                 }
@@ -785,6 +785,17 @@ pub fn build_layout_on(p: &Profile, s: &mut Src, bits: u32) -> Layout {
     l.decoys = if (!l.enums.is_empty() || !l.inners.is_empty()) && s.chance(1, 6) { 1 } else { 0 };
     // the user's own derives on the struct (passed through by the macro; see Layout::derives)
     l.derives = if s.chance(1, 4) { s.range(1, 7) as u8 } else { 0 };
+    // invocation context: user items named like companions of the struct, a user module called `core`, the struct
+    // item produced by a macro_rules! wrapper
+    if s.chance(1, 8) {
+        l.decoys |= 2;
+    }
+    if s.chance(1, 8) {
+        l.decoys |= 4;
+    }
+    if s.chance(1, 8) {
+        l.macro_wrap = 1;
+    }
     l
 }
 
